@@ -196,8 +196,18 @@ class FaultyIO(io.RawIOBase):
     def getvalue(self): return self.buf.getvalue()
 
 LAST_PATH = [[]]
-def _outcome(fn):
+def _alarm(signum, frame):
+    raise Watchdog()
+
+def _outcome(fn, seconds=10):
+    """run one recorded call; a call that neither returns nor produces events for `seconds` (generated code looping over a
+    huge count) is cut by an interval timer (main thread only)"""
+    import signal
     LAST_PATH[0] = []
+    timer = threading.current_thread() is threading.main_thread()
+    if timer:
+        old = signal.signal(signal.SIGALRM, _alarm)
+        signal.setitimer(signal.ITIMER_REAL, seconds)
     try:
         return True, fn(), ""
     except BaseException as e:
@@ -209,6 +219,10 @@ def _outcome(fn):
         if isinstance(e, Watchdog):
             return False, None, "Watchdog"
         return False, None, type(e).__name__
+    finally:
+        if timer:
+            signal.setitimer(signal.ITIMER_REAL, 0)
+            signal.signal(signal.SIGALRM, old)
 
 def run_parse(rec, con, data, start=0, kw=None, fault=None):
     "parse_stream on a root stream positioned at start; returns the recorded call"
